@@ -109,3 +109,58 @@ example : decode (encode ⟨[0, 1, 2], [(0, [(1, (5, "OPERATOR_KERNEL")), (2, (0
   decide
 
 end Hta.C19
+
+namespace Hta.C19
+
+theorem read_write_same (s : Store) (dir : String) (d : NodeLink) : (s.write dir d).read dir = some d := by
+  simp [Store.write, Store.read]
+
+theorem read_write_other (s : Store) (dir dir' : String) (d : NodeLink) (h : dir' ≠ dir) :
+    (s.write dir d).read dir' = s.read dir' := by
+  have : (dir == dir') = false := by
+    have : dir ≠ dir' := fun e => h e.symm
+    simpa using this
+  simp [Store.write, Store.read, List.find?_cons, this]
+
+/-- After any history, what a directory holds is the encoding of the graph saved to it most
+recently — saves to other directories and restores in between do not disturb it. -/
+theorem read_run (s : Store) (ops : List Op) (dir : String) :
+    (run s ops).read dir = match lastSaved dir ops with
+      | some a => some (encode a)
+      | none => s.read dir := by
+  induction ops generalizing s with
+  | nil => simp [run, lastSaved]
+  | cons op ops ih =>
+    simp only [run, lastSaved]
+    rw [ih]
+    cases hl : lastSaved dir ops with
+    | some a => rfl
+    | none =>
+      cases op with
+      | restore d => simp [step]
+      | save d a =>
+        simp only [step]
+        by_cases hd : d = dir
+        · subst hd; simp [read_write_same]
+        · have hd' : (d == dir) = false := by simpa using hd
+          simp only [hd']
+          exact read_write_other s d dir (encode a) (fun e => hd e.symm)
+
+/-- Histories: in every sequence of saves and restores, a restore from `dir` yields a graph
+observationally equal to the one most recently saved to `dir` (not an earlier one, not one
+saved elsewhere). -/
+theorem C19_restore_returns_last_saved (s : Store) (ops : List Op) (dir : String) (a : Adj)
+    (hl : lastSaved dir ops = some a) (wf : a.nodes.Nodup) :
+    ∃ b, (step (run s ops) (.restore dir)).2 = some b ∧ Same a b := by
+  have h := read_run s ops dir
+  rw [hl] at h
+  refine ⟨decode (encode a), ?_, ?_⟩
+  · simp [step, h]
+  · have := C19_decode_encode a wf
+    exact ⟨this.1.symm, fun u hu => (this.2 u hu).symm⟩
+
+/-- non-vacuity: save A to "d", restore, save B to "d": the directory holds B -/
+example : lastSaved "d" [.save "d" ⟨[0], [(0, [])]⟩, .restore "d", .save "e" ⟨[5], [(5, [])]⟩, .save "d" ⟨[0, 1], [(0, [(1, (3, "x"))]), (1, [])]⟩]
+    = some ⟨[0, 1], [(0, [(1, (3, "x"))]), (1, [])]⟩ := by decide
+
+end Hta.C19
